@@ -212,12 +212,17 @@ def units(tier):
     # nested names fixed, every pair of link targets symbolic (the full name x target product is in the thorough tier)
     for kinds, names in [("llf", ["a", "a/b", "a/b/c.txt"]), ("lld", ["a", "a/b", "a/b/c"]), ("lll", ["a", "a/b", "a/b/c"])]:
         us.append(Unit("3.physical_step[%s,nested names]" % kinds, M, "physical_step", dict(kinds=kinds, fixed_names=names), 3000))
+    for kinds in (["f", "lf"] if tier == "quick" else ["f", "d", "lf", "ld", "fl"]):
+        us.append(Unit("3.physical_step[%s,sibling prefix]" % kinds, M, "physical_step", dict(kinds=kinds, sibling=True), 3000))
     return us
 
 
 # ------------------------------------------------------- 3. physical step on a filesystem model
 NAME_TABLE = ["a", "a/b", "a/b/c.txt", "b", "a/c.txt"]
 TARGET_TABLE = [".", "..", "a", "../..", "b", "/base/outside"]
+# names / targets that reach a SIBLING of the destination whose name merely starts with the destination's name
+SIBLING_NAMES = ["../jailx/e.txt", "s", "s/e.txt", "../jail", "a"]
+SIBLING_TARGETS = ["../jailx", "/base/jailx", ".", "..", "a", "b"]
 JAIL = ("/", "base", "jail")
 
 
@@ -313,7 +318,7 @@ def pathlib_touch(p):
     pathlib.Path(p).touch()
 
 
-def physical_step(kinds, fixed_names=None):
+def physical_step(kinds, fixed_names=None, sibling=False):
     """kinds: string over 'l' (symlink), 'f' (file), 'd' (directory): an archive of len(kinds) entries whose names and
     link targets are symbolic indices into small tables; extracted into an empty jail through the real _extract"""
     import zlib
@@ -331,7 +336,8 @@ def physical_step(kinds, fixed_names=None):
     ni = [eng.sym_int("name%d" % i, 3) for i in range(n)]
     ti = [eng.sym_int("target%d" % i, 3) for i in range(n)]
     size = eng.sym_int("size", 20)
-    table = NAME_TABLE
+    table = SIBLING_NAMES if sibling else NAME_TABLE
+    TARGETS = SIBLING_TARGETS if sibling else TARGET_TABLE
 
     def pick(e, v, tbl):
         for k in range(len(tbl) - 1):
@@ -341,7 +347,7 @@ def physical_step(kinds, fixed_names=None):
 
     def harness(e):
         fs = F.FS()
-        for loc in [("/", "base"), JAIL]:
+        for loc in [("/", "base"), JAIL] + ([("/", "base", "jailx")] if sibling else []):
             fs.nodes[loc] = ("dir",)
         F.install(e, fs, "/base/jail")
         e.overrides[("py7zr.properties", "get_memory_limit")] = lambda e_: 10 ** 6
@@ -351,8 +357,8 @@ def physical_step(kinds, fixed_names=None):
             nm = fixed_names[i] if fixed_names else table[pick(e, ni[i], table)]
             names.append(nm)
             if k == "l":
-                e.assume(e.compare(ast.Lt(), ti[i], len(TARGET_TABLE)))
-                tg = TARGET_TABLE[pick(e, ti[i], TARGET_TABLE)]
+                e.assume(e.compare(ast.Lt(), ti[i], len(TARGETS)))
+                tg = TARGETS[pick(e, ti[i], TARGETS)]
                 targets.append(tg)
                 entries.append(dict(kind="l", name=nm, size=len(tg), crc=zlib.crc32(tg.encode()), mtime=None, attributes=W.default_attributes("l")))
             else:
@@ -403,7 +409,7 @@ def physical_step(kinds, fixed_names=None):
         out = []
         for i, k in enumerate(kinds):
             nm = fixed_names[i] if fixed_names else table[min(int(w.get("name%d" % i, 0)), len(table) - 1)]
-            tg = TARGET_TABLE[min(int(w.get("target%d" % i, 0)), len(TARGET_TABLE) - 1)] if k == "l" else None
+            tg = TARGETS[min(int(w.get("target%d" % i, 0)), len(TARGETS) - 1)] if k == "l" else None
             out.append((k, nm, tg))
         return out
 
@@ -435,9 +441,10 @@ def replay_physical(entries):
     base = tempfile.mkdtemp(prefix="vf_c03p_")
     jail = os.path.join(base, "jail")
     os.mkdir(jail)
+    os.mkdir(os.path.join(base, "jailx"))   # a sibling whose name starts with the destination's name
     ents, datas = [], []
     for (k, nm, tg) in entries:
-        tg2 = tg.replace("/base/outside", os.path.join(base, "outside")) if tg else tg
+        tg2 = tg.replace("/base/outside", os.path.join(base, "outside")).replace("/base/jailx", os.path.join(base, "jailx")) if tg else tg
         data = tg2.encode() if k == "l" else (b"payload" if k == "f" else b"")
         ents.append(dict(kind=k, name=nm, size=len(data), crc=zlib.crc32(data), mtime=None, attributes=W.default_attributes(k)))
         if k in "fl":
